@@ -22,10 +22,11 @@ pub struct Args {
 }
 
 fn main() {
+    util::silence_crate_stderr();
     util::install_panic_hook();
     let argv: Vec<String> = std::env::args().collect();
     if argv.len() < 2 {
-        eprintln!("usage: zipmc <C01..C20|selftest> [--tier quick|thorough] [--replay FILE]");
+        crate::diag!("usage: zipmc <C01..C20|selftest> [--tier quick|thorough] [--replay FILE]");
         std::process::exit(2);
     }
     let prop = argv[1].to_uppercase();
@@ -54,7 +55,7 @@ fn main() {
                 worker = argv.get(i).cloned();
             }
             other => {
-                eprintln!("unknown argument {other}");
+                crate::diag!("unknown argument {other}");
                 std::process::exit(2);
             }
         }
@@ -65,13 +66,13 @@ fn main() {
         std::process::exit(props::selftest());
     }
     if let Err(e) = reference::crc32::selftest() {
-        eprintln!("machinery: reference crc32 self-test failed: {e}");
+        crate::diag!("machinery: reference crc32 self-test failed: {e}");
         std::process::exit(2);
     }
     let code = match util::guard(|| props::run(&prop, &args)) {
         Ok(c) => c,
         Err(p) => {
-            eprintln!("MACHINERY-ERROR: harness panicked outside a guarded call: {p}");
+            crate::diag!("MACHINERY-ERROR: harness panicked outside a guarded call: {p}");
             2
         }
     };
